@@ -2,6 +2,7 @@
 C14 — Config sections are validated, then digested once each in constraint order.
 -/
 import CobaldVerif.Lemmas.Sections
+import CobaldVerif.Lemmas.SectionsGen
 
 namespace Cobald.Props.C14
 open Cobald Cobald.Sections
@@ -292,5 +293,67 @@ def exRank (n : String) : Nat := if n = "a" then 0 else 1
 example : (∀ p ∈ exPs, ∀ a ∈ p.after, a ∈ exPs.map (·.name) → a ≠ p.name → exRank a < exRank p.name) ∧
     (∀ p ∈ exPs, ∀ q ∈ exPs, p.name ∈ q.before → q.name ≠ p.name → exRank q.name < exRank p.name) := by
   decide
+
+/-! ### the source's loops (`Generated/SrcSections.lean`, regenerated on every run from
+`core/config.py load_section_plugins` and `config/mapping.py load_configuration`) -/
+
+/-- **the table the source builds is the model's table**: same keys in the same order, and for every key the
+same set of dependencies -/
+theorem gen_dependencies_equiv (ps : List Plugin) :
+    (Gen.Sections.dependencies ps).map (·.1) = (dependencies ps).map (·.1) ∧
+    ∀ k x, Has (Gen.Sections.dependencies ps) k x ↔ Has (dependencies ps) k x := by
+  have hkeys : ∀ (F : Plugin → List String), (ps.map (fun p => (p.name, F p))).map (·.1) = ps.map (·.name) := by
+    intro F; rw [List.map_map]; rfl
+  constructor
+  · rw [gen_dependencies_fold]
+    have : ∀ (es : List (String × String)) (d : Deps),
+        (es.foldl (fun d e => Gen.Sections.addDep d e.1 e.2) d).map (·.1) = d.map (·.1) := by
+      intro es; induction es with
+      | nil => intro d; rfl
+      | cons e es ih => intro d; rw [List.foldl_cons, ih, keys_addDep]
+    rw [this, hkeys]
+    unfold dependencies
+    exact (hkeys _).symm
+  · intro k x
+    rw [gen_dependencies_fold, has_foldl_addDep, hkeys, has_table, mem_edges]
+    unfold dependencies
+    rw [has_table]
+    constructor
+    · rintro (⟨p, hp, hk, hx⟩ | ⟨⟨q, hq, hb, -, hqx⟩, hkn⟩)
+      · refine ⟨p, hp, hk, ?_⟩
+        rw [mem_dedupS]; exact List.mem_append_left _ hx
+      · obtain ⟨p, hp, hpk⟩ := List.mem_map.mp hkn
+        refine ⟨p, hp, hpk, ?_⟩
+        rw [mem_dedupS]; apply List.mem_append_right
+        refine List.mem_map.mpr ⟨q, List.mem_filter.mpr ⟨hq, ?_⟩, hqx⟩
+        have : p.name = k := hpk
+        rw [this]; exact decide_eq_true hb
+    · rintro ⟨p, hp, hk, hx⟩
+      rw [mem_dedupS] at hx
+      rcases List.mem_append.mp hx with hx | hx
+      · exact .inl ⟨p, hp, hk, hx⟩
+      · obtain ⟨q, hq, hqx⟩ := List.mem_map.mp hx
+        have hq' := List.mem_filter.mp hq
+        have hb : p.name ∈ q.before := of_decide_eq_true hq'.2
+        refine .inr ⟨⟨q, hq'.1, hk ▸ hb, ?_, hqx⟩, ?_⟩
+        · exact hk ▸ List.mem_map.mpr ⟨p, hp, rfl⟩
+        · exact hk ▸ List.mem_map.mpr ⟨p, hp, rfl⟩
+/-- the digest loop of `load_configuration` as written in the source is the model's -/
+theorem gen_digest_eq (cfg : List String) (returns : String → Bool) : ∀ (order : List Plugin) (log kept : List String),
+    Gen.Sections.digestLoop cfg returns order log kept = digestLoop cfg returns order log kept := by
+  intro order
+  induction order with
+  | nil => intros; rfl
+  | cons p rest ih => intro log kept; simp only [Gen.Sections.digestLoop, digestLoop, ih]
+
+/-- `load_configuration` as written in the source: the one built-in section is taken out first, any other
+section without a plugin ends loading before a plugin is called, then the digest loop runs -/
+theorem gen_load_eq (order : List Plugin) (cfg : List String) (returns : String → Bool) :
+    loadConfiguration order cfg returns =
+      (let cfg' := cfg.filter (· ≠ Gen.Sections.builtinSection)
+       if Gen.Sections.unknownCheck order cfg' then (.unknownSections, [])
+       else Gen.Sections.digestLoop cfg' returns order [] []) := by
+  unfold loadConfiguration Gen.Sections.unknownCheck Gen.Sections.builtinSection
+  simp only [gen_digest_eq]
 
 end Cobald.Props.C14
